@@ -295,6 +295,35 @@ def check_C11(tier):
                 else:
                     rep.violation("random API history (seed %d): %s" % (job[0], info.get("message")), info)
     rep.notes["random_histories"] = n_hist
+    # purity across table switches and repetition, on the broad alphabets: every vector is decoded under its table,
+    # the table is switched away and back, other inputs are decoded in between, and the result must be the same
+    import checks_dec
+    from alphabets import TABLES
+    sf = de.selfies_mod()
+    sets = checks_dec.broad_vectors(rep, quick, "pu")
+    first = {}
+    try:
+        for rnd in range(2):
+            order = list(range(len(sets)))
+            rng.shuffle(order)
+            for si in order:
+                tab, vectors = sets[si]
+                de.set_table(TABLES[tab])
+                vs = list(vectors)
+                rng.shuffle(vs)
+                for v in vs[: (4000 if quick else 40000)]:
+                    s_ = "".join(v["inp"])
+                    got = de.call_decoder(s_)
+                    rep.traces += 1
+                    if got != (v["kind"], v["out"]) and not v.get("fuzzy"):
+                        rep.violation("decoder(%r) under table %s after a history of other calls and table switches: %r, "
+                                      "specification %r" % (s_, tab, got, (v["kind"], v["out"])), {"tokens": v["inp"], "table": TABLES[tab]})
+                    key = (si, s_)
+                    if first.setdefault(key, got) != got:
+                        rep.violation("decoder(%r) under table %s is not repeatable: %r then %r" % (s_, tab, first[key], got),
+                                      {"tokens": v["inp"], "table": TABLES[tab]})
+    finally:
+        sf.set_semantic_constraints("default")
     # identical across processes and hash seeds
     probe = os.path.join(VERIF, "harness", "hashseed_probe.py")
     logs = {}
